@@ -202,7 +202,11 @@ def gen_call(rng, mdl, weights=None, profile=None):
     return c
   if op in ('StopTrial', 'CheckTrialEarlyStoppingState'):
     t = pick_trial(rng, mdl, want_states=('ACTIVE', 'STOPPING') if rng.random() < 0.6 else ('SUCCEEDED', 'INFEASIBLE', 'REQUESTED'))
-    return {'op': op, 'trial': t}
+    c = {'op': op, 'trial': t}
+    if op == 'CheckTrialEarlyStoppingState':
+      # the decision of the harness algorithm (consulted for the studies it runs)
+      c['_es_entry'] = {'stop': rng.random() < 0.5}
+    return c
   if op == 'DeleteTrial':
     return {'op': op, 'trial': pick_trial(rng, mdl)}
   if op == 'UpdateMetadata':
@@ -282,6 +286,7 @@ class ProgramRunner:
     is_stub = bool(st_ and st_['study']['algo'] == S.STUB)
     ocls, oresp, raw = S.call_servicer(self.servicer, call)
     self.last_response = oresp
+    self.last_raw = raw
     self.controller.plan.clear()
     self.controller.es_plan.clear()
     self.controller.factory_faults.clear()
